@@ -2,6 +2,7 @@
 //! ordinary Rust function over the public API of sentinel-core (plus the guarded
 //! hooks); `mirsym` executes its MIR symbolically, the `replay` binary runs it natively.
 pub mod vrt;
+pub mod c01;
 pub mod c02;
 
 /// Structural parameters of a scenario (always concrete).
@@ -14,6 +15,7 @@ pub type Scenario = fn(Shape);
 
 pub fn scenario(name: &str) -> Option<Scenario> {
     Some(match name {
+        "c01_flow_reject" => c01::c01_flow_reject,
         "c02_window" => c02::c02_window,
         _ => return None,
     })
